@@ -4,4 +4,4 @@ Extraction Language OCaml.
 (* is_empty only pulls in the geometry types the shared OCaml glue (sfio.ml) is written against *)
 Extraction "model.ml" bulk_load range_search range_search_today priority_search pop_min nearest
   count extent tree_inv tree_leaves range_ok prio_ok nearest_ok extent_ok count_ok qp_split_ok
-  script sqdist overlap split2 is_empty.
+  script sqdist overlap split2 is_empty N.add N.of_nat N.to_nat.
